@@ -8,11 +8,20 @@
    Part C : [must_dirty] between a partially loaded graph and the inlined one: monotone ([md_up]: more
             information only makes dirtier -- this is where restat must not come late), equal below
             the loaded part ([md_down]); [needed] is the same under [dd_ins_ordered] ([needed_down]).
-   Part D : one build: the pass invariant ([Jinv], [step_inv]); [ybuild_equiv_proof]: a successful [ybuild]
-            ends in the state of HistDefs.build on the inlined manifest.
-   Part E : histories; C01 / C02 carried over; order; the finding as refutation; examples. *)
+   Part D : one build, against HistDefs.build on the inlined manifest: [rescan_inv] (what a (re-)scan of the
+            graph loaded so far wants, in terms of the inlined manifest), the pass invariant [Inv] (state =
+            the inlined build after K statements; pending files are produced by statements that have not had
+            their turn; the want map is sound and complete for fully loaded statements; nothing is sticky),
+            [step_low] (a restarted pass does nothing below K: HistProofs.build_inv_c02), [step_at] (statement
+            K: same decision, same command, every re-scan accepted), termination of the passes ([pend]),
+            [ybuild_done] / [ybuild_equiv]: with the read sources present both manifests accept and end in
+            the same state.
+   Part E : histories ([hist_equiv]); C01 / C02 carried over from HistProofs ([y_C01], [y_C02]); order
+            ([y_order]); then the theorems with the premises spelled out, the example projects, the listed
+            finding as witness and refutation ([C11_late_restat_witness_proof], [C11_late_restat_refuted_proof]). *)
 From NinjaV Require Import Engine.CrashDefs.
 From NinjaV Require Import Base.Bytes Engine.ScanDefs Engine.ScanSpec Engine.ScanProofs Engine.HistDefs Engine.HistProofs Engine.HistDyndepDefs.
+Require Import Coq.Sorting.Sorted.
 Local Open Scope nat_scope.
 
 (* ================================================================== generic *)
@@ -1275,3 +1284,382 @@ Proof.
 Qed.
 
 End Hist.
+
+(* ---- order *)
+Lemma run_edge_trace cmd X st e : h_trace (run_edge cmd X st e) = e :: h_trace st.
+Proof.
+  unfold run_edge, finish_run. cbn [record h_trace].
+  destruct (write_outs_spec (ei_restat (g_edge X e)) (cmd e (h_hash st e) (reads X st e))
+              (ei_outs (g_edge X e)) (tick st)) as [_ [_ [_ [Tr _]]]].
+  cbn zeta in Tr. rewrite Tr. reflexivity.
+Qed.
+
+Lemma build_trace cmd X p st : forall k,
+  exists l, h_trace (build_upto cmd X p k st) = l ++ h_trace st /\
+            StronglySorted (fun a b => b < a) l /\ Forall (fun e => e < k) l.
+Proof.
+  induction k as [|k [l [E [Hs Hf]]]].
+  - exists []. split; [reflexivity|]. split; constructor.
+  - rewrite build_upto_S. unfold build_step.
+    destruct (want_start p k && negb (ei_phony (g_edge X k)) && dirty_now X (build_upto cmd X p k st) k)%bool.
+    + exists (k :: l). split; [rewrite run_edge_trace, E; reflexivity|]. split.
+      * constructor; [exact Hs|exact Hf].
+      * constructor; [lia|]. apply (Forall_impl _ (fun a (H : a < k) => Nat.lt_lt_succ_r _ _ H) Hf).
+    + exists l. split; [exact E|]. split; [exact Hs|].
+      apply (Forall_impl _ (fun a (H : a < k) => Nat.lt_lt_succ_r _ _ H) Hf).
+Qed.
+
+Lemma ran_since_app (l : list edge) st st' : h_trace st' = l ++ h_trace st -> ran_since st st' = l.
+Proof.
+  intros H. unfold ran_since. rewrite H, app_length.
+  replace (length l + length (h_trace st) - length (h_trace st)) with (length l + 0) by lia.
+  rewrite firstn_app_2. cbn [firstn]. apply app_nil_r.
+Qed.
+
+(* [x] ran before [e] (the list is most recent first) *)
+Definition before (l : list edge) (x e : edge) : Prop := exists l1 l2 l3, l = l1 ++ e :: l2 ++ x :: l3.
+
+Lemma sorted_before l x e : StronglySorted (fun a b => b < a) l -> In x l -> In e l -> x < e -> before l x e.
+Proof.
+  intros Hs. induction Hs as [|a l Hs IH Hf]; intros Hx He Hlt; [destruct Hx|].
+  rewrite Forall_forall in Hf. destruct He as [->|He].
+  - destruct Hx as [->|Hx]; [lia|]. destruct (in_split x l Hx) as [l2 [l3 ->]].
+    exists [], l2, l3. reflexivity.
+  - destruct Hx as [->|Hx]; [specialize (Hf e He); lia|].
+    destruct (IH Hx He Hlt) as [l1 [l2 [l3 ->]]]. exists (a :: l1), l2, l3. reflexivity.
+Qed.
+
+Theorem y_order cmd s T st' :
+  Good cmd GI s -> srcs_present g y s = true -> targets_produced g T = true ->
+  ybuild cmd g y s T = YDone st' ->
+  let l := ran_since s st' in
+  StronglySorted (fun a b => b < a) l /\
+  forall e, In e l ->
+    (forall i x, In i (y_ins y e) -> g_producer GI i = Some x -> x < e /\ (In x l -> before l x e)) /\
+    (forall dd p, y_bind y e = Some dd -> g_producer g dd = Some p -> p < e /\ (In p l -> before l p e)).
+Proof.
+  intros HG Hs HT Hy1 l.
+  destruct (ybuild_equiv cmd s T HG Hs HT) as [st1 [Hy' Hb]]. rewrite Hy1 in Hy'. inversion Hy'; subst st1.
+  unfold build in Hb. destruct (scan (graph_of GI s) (world_of s) T) as [c1|m1 d1|e1| |sc p]; try discriminate.
+  inversion Hb as [Hb']. destruct (build_trace cmd GI p s (g_nedges GI)) as [l' [E [Hso Hf]]].
+  change (g_nedges GI) with N_ in *. rewrite Hb' in E. assert (Hl : l = l') by (apply ran_since_app; exact E). subst l'.
+  split; [exact Hso|]. intros e He. rewrite Forall_forall in Hf. pose proof (Hf e He) as HeN. split.
+  - intros i x Hi Hp.
+    assert (Hb2 : y_bind y e <> None).
+    { intros Hn. destruct (ey_unbound e (fragY_edge e HeN) Hn) as [Hnil _]. rewrite Hnil in Hi. destruct Hi. }
+    assert (Hlt : x < e).
+    { apply (topo_lt e i x HeN); [|exact Hp]. unfold inline_y. apply gl_ins. right.
+      split; [apply (loaded_all e HeN Hb2)|exact Hi]. }
+    split; [exact Hlt|]. intros Hx. apply (sorted_before l x e Hso Hx He Hlt).
+  - intros dd p0 Hbd Hp.
+    destruct (ey_bound e (fragY_edge e HeN) dd Hbd) as [_ [Hin _]].
+    assert (Hlt : p0 < e).
+    { apply (topo_lt e dd p0 HeN); [unfold inline_y; apply gl_ins; left; exact Hin|].
+      unfold inline_y. apply g_prod_gl. exact Hp. }
+    split; [exact Hlt|]. intros Hx. apply (sorted_before l p0 e Hso Hx He Hlt).
+Qed.
+
+End Graphs.
+
+(* ================================================================== the theorems, premises spelled out *)
+Lemma all_src_no_late g y : frag_ABY g y = true -> all_dd_sources g y = true -> no_late_restat g y = true.
+Proof.
+  intros Hfr Hall. apply edges_all_intro. intros e He.
+  destruct (y_bind y e) as [dd|] eqn:E; [|rewrite !orb_true_r; reflexivity].
+  destruct (ey_bound g y e (fragY_edge g y Hfr e He) dd E) as [Hdd _].
+  unfold all_dd_sources in Hall. rewrite forallb_forall in Hall. rewrite (Hall dd Hdd). apply orb_true_r.
+Qed.
+
+(* (1) equivalence: over any history the two manifests are in the SAME state (disk, clock, log, ghost, trace:
+   the same commands in the same order), and every request is accepted by both and ends in the same state *)
+Theorem C11_equiv_proof :
+  forall (cmd : edge -> N -> snapshot -> node -> content) (g : graph) (y : dyninfo),
+    wf_spec g -> wf_graph g -> wf_y g y -> frag_ABY g y = true ->
+    frag_AB (inline_y g y) = true -> topo_ordered (inline_y g y) = true ->
+    dd_ins_ordered g y = true -> no_inputless_phony (inline_y g y) = true -> no_late_restat g y = true ->
+  forall h : list hstep,
+    hist_ok (inline_y g y) h = true ->
+    hist_present_y cmd g y (init_hstate (inline_y g y)) h = true ->
+    let sy := yrun_hist cmd g y (init_hstate (inline_y g y)) h in
+    sy = run_hist cmd (inline_y g y) (init_hstate (inline_y g y)) h /\
+    forall T : list node, srcs_present g y sy = true -> targets_produced g T = true ->
+      exists st' : hstate,
+        ybuild cmd g y sy T = YDone st' /\ build cmd (inline_y g y) sy T = Some st'.
+Proof.
+  intros cmd g y Hwf Hwg Hy Hfr Hfi Hti Hord Hnip Hnl h Hok Hp sy.
+  pose proof (hist_equiv g y Hwf Hwg Hy Hfr Hfi Hti Hord Hnip Hnl cmd h _ (good_init cmd (inline_y g y)) Hok Hp) as E.
+  split; [exact E|]. intros T Hs HT.
+  apply (ybuild_equiv g y Hwf Hwg Hy Hfr Hfi Hti Hord Hnip Hnl cmd sy T); [|exact Hs|exact HT].
+  unfold sy. rewrite E.
+  apply (good_hist cmd (inline_y g y) (gl_wf_spec g y Hwf Hy Hfr _) Hti h _ (good_init cmd (inline_y g y)) Hok).
+Qed.
+
+(* the same with the side condition about restat as a switch: the observable part (commands run) *)
+Definition C11_equiv_full (late_excluded : bool) : Prop :=
+  forall (cmd : edge -> N -> snapshot -> node -> content) (g : graph) (y : dyninfo),
+    wf_spec g -> wf_graph g -> wf_y g y -> frag_ABY g y = true ->
+    frag_AB (inline_y g y) = true -> topo_ordered (inline_y g y) = true ->
+    dd_ins_ordered g y = true -> no_inputless_phony (inline_y g y) = true ->
+    (late_excluded = true -> no_late_restat g y = true) ->
+  forall h : list hstep,
+    hist_ok (inline_y g y) h = true ->
+    hist_present_y cmd g y (init_hstate (inline_y g y)) h = true ->
+    h_trace (yrun_hist cmd g y (init_hstate (inline_y g y)) h)
+    = h_trace (run_hist cmd (inline_y g y) (init_hstate (inline_y g y)) h).
+
+Theorem C11_equiv_full_proof : C11_equiv_full true.
+Proof.
+  intros cmd g y Hwf Hwg Hy Hfr Hfi Hti Hord Hnip Hnl h Hok Hp.
+  destruct (C11_equiv_proof cmd g y Hwf Hwg Hy Hfr Hfi Hti Hord Hnip (Hnl eq_refl) h Hok Hp) as [E _].
+  rewrite E. reflexivity.
+Qed.
+
+(* (2) C01 and C02 for the dyndep manifest *)
+Theorem C11_C01_proof :
+  forall (cmd : edge -> N -> snapshot -> node -> content) (g : graph) (y : dyninfo),
+    wf_spec g -> wf_graph g -> wf_y g y -> frag_ABY g y = true ->
+    frag_AB (inline_y g y) = true -> topo_ordered (inline_y g y) = true ->
+    dd_ins_ordered g y = true -> no_inputless_phony (inline_y g y) = true -> no_late_restat g y = true ->
+    (forall (e : edge) (h h' : N) (S : snapshot) (o : node),
+       ei_generator (g_edge (inline_y g y) e) = true -> cmd e h S o = cmd e h' S o) ->
+  forall (h : list hstep) (T : list node),
+    hist_ok (inline_y g y) h = true ->
+    hist_present_y cmd g y (init_hstate (inline_y g y)) h = true ->
+    let s := yrun_hist cmd g y (init_hstate (inline_y g y)) h in
+    srcs_present g y s = true -> targets_produced g T = true ->
+    exists st' : hstate,
+      ybuild cmd g y s T = YDone st' /\
+      forall n : node, reach (inline_y g y) T n -> content_of st' n = clean_of cmd (inline_y g y) st' n.
+Proof.
+  intros cmd g y Hwf Hwg Hy Hfr Hfi Hti Hord Hnip Hnl Hgen h T.
+  apply (y_C01 g y Hwf Hwg Hy Hfr Hfi Hti Hord Hnip Hnl cmd Hgen h T).
+Qed.
+
+Theorem C11_C02_proof :
+  forall (cmd : edge -> N -> snapshot -> node -> content) (g : graph) (y : dyninfo),
+    wf_spec g -> wf_graph g -> wf_y g y -> frag_ABY g y = true ->
+    frag_AB (inline_y g y) = true -> topo_ordered (inline_y g y) = true ->
+    dd_ins_ordered g y = true -> no_inputless_phony (inline_y g y) = true -> no_late_restat g y = true ->
+  forall (h : list hstep) (T : list node) (st' : hstate),
+    hist_ok (inline_y g y) h = true ->
+    hist_present_y cmd g y (init_hstate (inline_y g y)) h = true ->
+    let s := yrun_hist cmd g y (init_hstate (inline_y g y)) h in
+    srcs_present g y s = true -> targets_produced g T = true ->
+    ybuild cmd g y s T = YDone st' -> ybuild cmd g y st' T = YDone st'.
+Proof.
+  intros cmd g y Hwf Hwg Hy Hfr Hfi Hti Hord Hnip Hnl h T st'.
+  apply (y_C02 g y Hwf Hwg Hy Hfr Hfi Hti Hord Hnip Hnl cmd h T st').
+Qed.
+
+(* (3) order: the commands of one build, most recent first, are in strictly decreasing statement order;
+   a statement that ran did so after the producers of its dyndep inputs and after the producer of its
+   dyndep file ([before l x e]: x ran before e) *)
+Theorem C11_order_proof :
+  forall (cmd : edge -> N -> snapshot -> node -> content) (g : graph) (y : dyninfo),
+    wf_spec g -> wf_graph g -> wf_y g y -> frag_ABY g y = true ->
+    frag_AB (inline_y g y) = true -> topo_ordered (inline_y g y) = true ->
+    dd_ins_ordered g y = true -> no_inputless_phony (inline_y g y) = true -> no_late_restat g y = true ->
+  forall (h : list hstep) (T : list node) (st' : hstate),
+    hist_ok (inline_y g y) h = true ->
+    hist_present_y cmd g y (init_hstate (inline_y g y)) h = true ->
+    let s := yrun_hist cmd g y (init_hstate (inline_y g y)) h in
+    srcs_present g y s = true -> targets_produced g T = true ->
+    ybuild cmd g y s T = YDone st' ->
+    let l := ran_since s st' in
+    StronglySorted (fun a b : nat => b < a) l /\
+    forall e : edge, In e l ->
+      (forall (i : node) (x : edge), In i (y_ins y e) -> g_producer (inline_y g y) i = Some x ->
+         x < e /\ (In x l -> before l x e)) /\
+      (forall (dd : node) (p : edge), y_bind y e = Some dd -> g_producer g dd = Some p ->
+         p < e /\ (In p l -> before l p e)).
+Proof.
+  intros cmd g y Hwf Hwg Hy Hfr Hfi Hti Hord Hnip Hnl h T st' Hok Hp s Hs HT Hb.
+  apply (y_order g y Hwf Hwg Hy Hfr Hfi Hti Hord Hnip Hnl cmd s T st'); [|exact Hs|exact HT|exact Hb].
+  destruct (C11_equiv_proof cmd g y Hwf Hwg Hy Hfr Hfi Hti Hord Hnip Hnl h Hok Hp) as [E _].
+  unfold s. rewrite E.
+  apply (good_hist cmd (inline_y g y) (gl_wf_spec g y Hwf Hy Hfr _) Hti h _ (good_init cmd (inline_y g y)) Hok).
+Qed.
+
+(* ================================================================== the example projects *)
+Lemma ExY_wf_spec b : wf_spec (ExY.mk b).
+Proof.
+  split; [|split].
+  - intros e o Ho. destruct b; destruct e as [|[|[|[|e]]]]; cbn in Ho;
+      try (destruct Ho as [<-|[]]; reflexivity); destruct Ho.
+  - intros n e Hp. destruct b; destruct n as [|[|[|[|[|[|[|[|n]]]]]]]]; cbn in Hp; try discriminate;
+      inversion Hp; subst; cbn; left; reflexivity.
+  - intros e Hd. exfalso. apply Hd. destruct e as [|[|[|[|e]]]]; reflexivity.
+Qed.
+
+Lemma ExY_wf_graph b : wf_graph (ExY.mk b).
+Proof.
+  intros n e Hp. destruct b; destruct n as [|[|[|[|[|[|[|[|n]]]]]]]]; cbn in Hp; try discriminate;
+    inversion Hp; subst; cbn; lia.
+Qed.
+
+Lemma ExY_wf_y b : wf_y (ExY.mk b) ExY.y.
+Proof.
+  split.
+  - intros e n Hn. destruct e as [|[|[|e]]]; cbn in Hn; try (destruct Hn); subst; try reflexivity; contradiction.
+  - intros n e Hp. destruct n as [|[|[|[|[|[|n]]]]]]; cbn in Hp; try discriminate. inversion Hp; subst.
+    split; [left; reflexivity|cbn; lia].
+Qed.
+
+Lemma ExY_gen b : forall e h h' S o,
+  ei_generator (g_edge (inline_y (ExY.mk b) ExY.y) e) = true -> ExY.cmd e h S o = ExY.cmd e h' S o.
+Proof. intros e h h' S o H. destruct b; destruct e as [|[|[|[|e]]]]; vm_compute in H; discriminate. Qed.
+
+Lemma ExLate_wf_spec : wf_spec ExLate.g.
+Proof.
+  split; [|split].
+  - intros e o Ho. destruct e as [|[|e]]; cbn in Ho; try (destruct Ho as [<-|[]]; reflexivity); destruct Ho.
+  - intros n e Hp. destruct n as [|[|[|[|n]]]]; cbn in Hp; try discriminate;
+      inversion Hp; subst; cbn; left; reflexivity.
+  - intros e Hd. exfalso. apply Hd. destruct e as [|[|e]]; reflexivity.
+Qed.
+
+Lemma ExLate_wf_graph : wf_graph ExLate.g.
+Proof.
+  intros n e Hp. destruct n as [|[|[|[|n]]]]; cbn in Hp; try discriminate; inversion Hp; subst; cbn; lia.
+Qed.
+
+Lemma ExLate_wf_y : wf_y ExLate.g ExLate.y.
+Proof. split; [intros e n Hn; destruct Hn|intros n e Hp; discriminate]. Qed.
+
+(* (4) the listed finding dyndep-restat-known-late as a witness: a graph and a history inside the fragment,
+   every premise of (1) but [no_late_restat] true, both manifests in the same state before the last build
+   (same files, same log), the last build accepted by both: the dyndep manifest runs a command the inlined
+   manifest skips; the contents agree *)
+Definition C11_late_restat_witness : Prop :=
+  exists (cmd : edge -> N -> snapshot -> node -> content) (g : graph) (y : dyninfo) (h : list hstep) (T : list node),
+    wf_spec g /\ wf_graph g /\ wf_y g y /\
+    frag_ABY g y && frag_AB (inline_y g y) && topo_ordered (inline_y g y) && dd_ins_ordered g y
+    && no_inputless_phony (inline_y g y) && hist_ok (inline_y g y) (h ++ [Build T])
+    && hist_present_y cmd g y (init_hstate (inline_y g y)) (h ++ [Build T]) = true /\
+    no_late_restat g y = false /\
+    let sy := yrun_hist cmd g y (init_hstate (inline_y g y)) h in
+    let si := run_hist cmd (inline_y g y) (init_hstate (inline_y g y)) h in
+    h_trace sy = h_trace si /\
+    exists sy' si' e,
+      ybuild cmd g y sy T = YDone sy' /\ build cmd (inline_y g y) si T = Some si' /\
+      In e (ran_since sy sy') /\ ~ In e (ran_since si si') /\
+      forall n, content_of sy' n = content_of si' n.
+
+Theorem C11_late_restat_witness_proof : C11_late_restat_witness.
+Proof.
+  exists ExLate.cmd, ExLate.g, ExLate.y, (firstn 6 ExLate.hist), [3%nat].
+  split; [exact ExLate_wf_spec|]. split; [exact ExLate_wf_graph|]. split; [exact ExLate_wf_y|].
+  split; [vm_compute; reflexivity|]. split; [vm_compute; reflexivity|]. cbv zeta.
+  split; [vm_compute; reflexivity|].
+  set (sy := yrun_hist ExLate.cmd ExLate.g ExLate.y (init_hstate (inline_y ExLate.g ExLate.y)) (firstn 6 ExLate.hist)).
+  set (si := run_hist ExLate.cmd (inline_y ExLate.g ExLate.y) (init_hstate (inline_y ExLate.g ExLate.y)) (firstn 6 ExLate.hist)).
+  destruct (ybuild ExLate.cmd ExLate.g ExLate.y sy [3%nat]) as [|stf|sy'] eqn:Ey;
+    [exfalso; revert Ey; vm_compute; discriminate|exfalso; revert Ey; vm_compute; discriminate|].
+  destruct (build ExLate.cmd (inline_y ExLate.g ExLate.y) si [3%nat]) as [si'|] eqn:Ei;
+    [|exfalso; revert Ei; vm_compute; discriminate].
+  exists sy', si', 1%nat. split; [reflexivity|]. split; [reflexivity|].
+  assert (Hy' : sy' = match ybuild ExLate.cmd ExLate.g ExLate.y sy [3%nat] with YDone s => s | _ => sy end)
+    by (rewrite Ey; reflexivity).
+  assert (Hi' : si' = match build ExLate.cmd (inline_y ExLate.g ExLate.y) si [3%nat] with Some s => s | None => si end)
+    by (rewrite Ei; reflexivity).
+  split; [rewrite Hy'; vm_compute; left; reflexivity|].
+  split; [rewrite Hi'; vm_compute; intros [H|[]]; discriminate|].
+  intros n. rewrite Hy', Hi'.
+  destruct n as [|[|[|[|n]]]]; vm_compute; reflexivity.
+Qed.
+
+(* ... hence (1) without the side condition is false of the model *)
+Theorem C11_late_restat_refuted_proof : ~ C11_equiv_full false.
+Proof.
+  intros H.
+  specialize (H ExLate.cmd ExLate.g ExLate.y ExLate_wf_spec ExLate_wf_graph ExLate_wf_y).
+  specialize (H eq_refl eq_refl eq_refl eq_refl eq_refl (fun F => False_ind _ (Bool.diff_false_true F))).
+  specialize (H ExLate.hist eq_refl eq_refl). revert H. vm_compute. discriminate.
+Qed.
+
+(* (5) the same project with the dyndep file as a source that exists when the build starts, and as a file
+   produced during the build: both satisfy every premise of (1), and over the same history (plus the step
+   that creates the source file) every node but the dyndep file itself and the stand-in output of the
+   statement that would produce it has the same content at the end *)
+Theorem C11_existing_vs_produced_proof :
+  let gp := ExY.g in let gs := ExY.gs in let y := ExY.y in
+  (forall b, wf_spec (ExY.mk b) /\ wf_graph (ExY.mk b) /\ wf_y (ExY.mk b) y /\
+     frag_ABY (ExY.mk b) y && frag_AB (inline_y (ExY.mk b) y) && topo_ordered (inline_y (ExY.mk b) y)
+     && dd_ins_ordered (ExY.mk b) y && no_inputless_phony (inline_y (ExY.mk b) y)
+     && no_late_restat (ExY.mk b) y = true) /\
+  all_dd_sources gp y = false /\ all_dd_sources gs y = true /\
+  hist_ok (inline_y gp y) ExY.hist && hist_present_y ExY.cmd gp y (init_hstate (inline_y gp y)) ExY.hist
+  && hist_ok (inline_y gs y) ExY.hist_s && hist_present_y ExY.cmd gs y (init_hstate (inline_y gs y)) ExY.hist_s = true /\
+  forall n, n <> 2%nat -> n <> 7%nat ->
+    content_of (yrun_hist ExY.cmd gp y (init_hstate (inline_y gp y)) ExY.hist) n
+    = content_of (yrun_hist ExY.cmd gs y (init_hstate (inline_y gs y)) ExY.hist_s) n.
+Proof.
+  cbv zeta. split.
+  - intros b. split; [apply ExY_wf_spec|]. split; [apply ExY_wf_graph|]. split; [apply ExY_wf_y|].
+    destruct b; vm_compute; reflexivity.
+  - split; [vm_compute; reflexivity|]. split; [vm_compute; reflexivity|]. split; [vm_compute; reflexivity|].
+    intros n H2 H7. destruct n as [|[|[|[|[|[|[|[|n]]]]]]]]; try congruence; vm_compute; reflexivity.
+Qed.
+
+(* (6) non-vacuity: the project ExY (dyndep file PRODUCED in the build; it gives e2 the implicit input x.h,
+   produced by e1, and the implicit output tmp.imp, which it gives e3 as an implicit input) satisfies every
+   premise of (1), (2), (3); its first build loads the file mid-build, its second at scan time *)
+Theorem C11_nonvacuous_proof :
+  let g := ExY.g in let y := ExY.y in let gi := inline_y g y in
+  wf_spec g /\ wf_graph g /\ wf_y g y /\
+  (forall e h h' S o, ei_generator (g_edge gi e) = true -> ExY.cmd e h S o = ExY.cmd e h' S o) /\
+  frag_ABY g y && frag_AB gi && topo_ordered gi && dd_ins_ordered g y && no_inputless_phony gi
+  && no_late_restat g y && hist_ok gi ExY.hist && hist_present_y ExY.cmd g y (init_hstate gi) ExY.hist = true /\
+  (* the ground truth: produced file, input from another statement, output consumed downstream *)
+  g_producer g 2%nat = Some 0%nat /\ y_bind y 2%nat = Some 2%nat /\ y_bind y 3%nat = Some 2%nat /\
+  y_ins y 2%nat = [3%nat] /\ g_producer g 3%nat = Some 1%nat /\
+  y_outs y 2%nat = [5%nat] /\ y_ins y 3%nat = [5%nat] /\ g_producer gi 5%nat = Some 2%nat /\
+  (* first build: nothing loaded at scan time, all four commands, e2 read x.h, tmp.imp exists *)
+  (let st := run_hist ExY.cmd gi (init_hstate gi) (firstn 2 ExY.hist) in
+   scan_loads g y st = [] /\
+   match ybuild ExY.cmd g y st [6%nat] with
+   | YDone st' => ran_since st st' = [3; 2; 1; 0]%nat /\ content_of st' 5%nat <> None /\
+                  scan_loads g y st' = [2%nat]
+   | _ => False
+   end) /\
+  h_trace (yrun_hist ExY.cmd g y (init_hstate gi) ExY.hist) = [0; 3; 2; 1; 3; 2; 1; 0]%nat.
+Proof.
+  cbv zeta. split; [apply ExY_wf_spec|]. split; [apply ExY_wf_graph|]. split; [apply ExY_wf_y|].
+  split; [apply (ExY_gen true)|]. split; [vm_compute; reflexivity|].
+  repeat (split; [reflexivity|]).
+  split; [|vm_compute; reflexivity].
+  split; [vm_compute; reflexivity|]. vm_compute. split; [reflexivity|]. split; [discriminate|reflexivity].
+Qed.
+
+(* (1') one request: with the read sources present and manifest outputs as targets BOTH manifests accept,
+   and end in the same state *)
+Theorem C11_build_equiv_proof :
+  forall (cmd : edge -> N -> snapshot -> node -> content) (g : graph) (y : dyninfo),
+    wf_spec g -> wf_graph g -> wf_y g y -> frag_ABY g y = true ->
+    frag_AB (inline_y g y) = true -> topo_ordered (inline_y g y) = true ->
+    dd_ins_ordered g y = true -> no_inputless_phony (inline_y g y) = true -> no_late_restat g y = true ->
+  forall (st : hstate) (T : list node),
+    Good cmd (inline_y g y) st -> srcs_present g y st = true -> targets_produced g T = true ->
+    exists st' : hstate,
+      ybuild cmd g y st T = YDone st' /\ build cmd (inline_y g y) st T = Some st'.
+Proof.
+  intros cmd g y Hwf Hwg Hy Hfr Hfi Hti Hord Hnip Hnl st T.
+  apply (ybuild_equiv g y Hwf Hwg Hy Hfr Hfi Hti Hord Hnip Hnl cmd st T).
+Qed.
+
+(* (1'') when every dyndep file is a source the side condition about restat is not needed: restat from a
+   dyndep file is always known at scan time *)
+Theorem C11_equiv_sources_proof :
+  forall (cmd : edge -> N -> snapshot -> node -> content) (g : graph) (y : dyninfo),
+    wf_spec g -> wf_graph g -> wf_y g y -> frag_ABY g y = true ->
+    frag_AB (inline_y g y) = true -> topo_ordered (inline_y g y) = true ->
+    dd_ins_ordered g y = true -> no_inputless_phony (inline_y g y) = true -> all_dd_sources g y = true ->
+  forall h : list hstep,
+    hist_ok (inline_y g y) h = true ->
+    hist_present_y cmd g y (init_hstate (inline_y g y)) h = true ->
+    yrun_hist cmd g y (init_hstate (inline_y g y)) h
+    = run_hist cmd (inline_y g y) (init_hstate (inline_y g y)) h.
+Proof.
+  intros cmd g y Hwf Hwg Hy Hfr Hfi Hti Hord Hnip Hall h Hok Hp.
+  apply (C11_equiv_proof cmd g y Hwf Hwg Hy Hfr Hfi Hti Hord Hnip (all_src_no_late g y Hfr Hall) h Hok Hp).
+Qed.
